@@ -1,6 +1,10 @@
 package main
 
 import (
+	"encoding/json"
+	"os"
+	"path/filepath"
+	"sort"
 	"strings"
 	"time"
 )
@@ -300,6 +304,42 @@ func corpus() []*History {
 			opEB(5*sec))
 	}
 
+	// W17: the refund deadline is an instant, not a second: disabled at +0.6 s with a 10 s waiting period
+	// (cfg 0: 5 s + 5 s), a refund at +10.3 s (same wall-clock second as the deadline +10.6 s) is refused,
+	// at +10.6 s it is paid.
+	ms := int64(1e6)
+	add("W17-refund-deadline-subsecond", 0, rich(101),
+		opDefine(1, 101),
+		opBind(1, 126, 101, base(6000), price("1"), 1),
+		opEB(600*ms),
+		Op{Kind: "disable", Svc: 1, Prov: 126, Owner: 101},
+		opEB(5*sec),
+		opEB(4*sec+700*ms),
+		Op{Kind: "refunddep", Svc: 1, Prov: 126, Owner: 101},
+		opEB(300*ms),
+		Op{Kind: "refunddep", Svc: 1, Prov: 126, Owner: 101})
+
 	hs = append(hs, corpusC17()...)
+	hs = append(hs, corpusFiles("corpus")...)
 	return hs
+}
+
+// corpusFiles loads the minimised failures kept as JSON histories (one file per history) from dir,
+// relative to the working directory (the checks run with /verif as working directory).
+func corpusFiles(dir string) []*History {
+	names, _ := filepath.Glob(filepath.Join(dir, "*.json"))
+	sort.Strings(names)
+	var out []*History
+	for _, n := range names {
+		b, err := os.ReadFile(n)
+		if err != nil {
+			continue
+		}
+		var h History
+		if json.Unmarshal(b, &h) != nil || len(h.Ops) == 0 {
+			continue
+		}
+		out = append(out, &h)
+	}
+	return out
 }
